@@ -193,6 +193,7 @@ def handleCfg (cfg : Cfg) (toks : List String) : String :=
   match toks with
   | ["DEC", h] => match bytesOfHex h with | some d => opDec cfg d | none => "BAD-OP"
   | "ENC" :: ws => opEnc cfg ws
+  | "ENCD" :: ws => opEnc cfg ws   -- the same value in containers with a history: equal values, equal frames
   | "BUILDSEQ" :: ws => opBuildSeq cfg ws
   | "BUILDREP" :: n :: ws => match n.toNat? with | some n => opBuildRep cfg n ws | none => "BAD-OP"
   | ["SIG", g, b, a] =>
